@@ -314,7 +314,7 @@ class Program:
                         decs = '|'.join(ast.unparse(d) for d in s.decorator_list)
                         key = f'{q}@{decs}'
                     m.functions[key] = fi
-                    if cls is not None and (prefix == cls.name + '.' or prefix.endswith('.' + cls.name + '.')):
+                    if cls is not None and prefix == cls.name + '.':
                         cls.methods.setdefault(s.name, fi)
                     index_funcs(s.body, q + '.<locals>.', cls)
                 elif isinstance(s, ast.ClassDef):
